@@ -342,6 +342,14 @@ func (x *c03Exec) runPath(fn *ssa.Function, s *c03State) ([]*c03State, []c03Outc
 				if c.B {
 					k = 0
 				}
+				// a concretely decided test (typically the header of a loop with a known trip
+				// count) re-arms the undecided tests it dominates: the consecutive-take limit is
+				// only there to bound loops whose own test is undecided
+				for f := range s.forks {
+					if f != i && i.Block().Dominates(f.Block()) {
+						delete(s.forks, f)
+					}
+				}
 				s.prev, s.blk, s.idx = s.blk, s.blk.Succs[k], 0
 				continue
 			}
